@@ -647,7 +647,8 @@ impl<T> AutoGrowCircularQueue<T> {
     ///
     /// Returns `ZiporaError::MemoryError` if allocation fails
     pub fn reserve(&mut self, additional: usize) -> Result<()> {
-        let required = self.len + additional;
+        // One slot always stays free: head == tail must mean "empty" (see push_back)
+        let required = self.len + additional + 1;
         if required <= self.capacity {
             return Ok(());
         }
